@@ -549,6 +549,84 @@ func (x *Exec) copyArr(dstArr, dOff, dLen, n, srcArr, srcOff *Term) *Term {
 	return res
 }
 
+// bytesBuffer: assumed contract of bytes.Buffer used write-only (Write,
+// WriteByte, WriteString append; Bytes/Len/String observe; Grow reserves; Reset
+// empties; writes never fail).  The contents live in the buffer's own `buf`
+// field as a slice over one array that is never reallocated (capacity is not
+// observable through these methods).
+func (x *Exec) bytesBuffer(method string, callee *ssa.Function, args []Value, st *State, pc *Term) (Value, bool) {
+	b := x.b
+	recv, ok := args[0].(*PtrV)
+	if !ok || recv.Obj == nil || recv.AltC != nil {
+		return nil, false
+	}
+	sv, ok := x.getPath(st.h[recv.Obj], recv.Path).(*StructV)
+	if !ok || len(sv.F) < 2 {
+		return nil, false
+	}
+	cur, ok := sv.F[0].(*SliceV)
+	off, ok2 := sv.F[1].(*Term)
+	if !ok || !ok2 {
+		return nil, false
+	}
+	x.usedStub("bytes.Buffer (append-only use: Write/WriteByte/WriteString/Bytes/Len/Grow/Reset; writes never fail; assumed)")
+	nilErr := func() Value {
+		return &IfaceV{Nil: b.True(), T: types.Universe.Lookup("error").Type()}
+	}
+	put := func(ns *SliceV, noff *Term) {
+		n := &StructV{F: append([]Value{}, sv.F...)}
+		n.F[0], n.F[1] = ns, noff
+		st.h[recv.Obj] = x.setPath(st.h[recv.Obj], recv.Path, n)
+	}
+	appendBytes := func(tArr, tOff, tLen *Term) {
+		if cur.Obj == nil {
+			o := x.newObj("bytes.Buffer", nil)
+			st.h[o] = b.ConstArr(Arr(BV(64), BV(8)), b.Const(8, 0))
+			cur = &SliceV{Obj: o, Off: b.Const(64, 0), Len: b.Const(64, 0), Cap: b.Const(64, 1<<40)}
+		}
+		arr := x.readArr(st, cur.Obj, cur.Path)
+		if tArr != nil {
+			arr = x.copyArr(arr, b.Bin("bvadd", cur.Off, cur.Len), tLen, tLen, tArr, tOff)
+			st.h[cur.Obj] = x.setPath(st.h[cur.Obj], cur.Path, arr)
+		}
+		cur = &SliceV{Obj: cur.Obj, Path: cur.Path, Off: cur.Off, Len: b.Bin("bvadd", cur.Len, tLen), Cap: cur.Cap}
+		put(cur, off)
+	}
+	switch method {
+	case "Write":
+		p := args[1].(*SliceV)
+		var tArr *Term
+		if p.Obj != nil {
+			tArr = x.readArr(st, p.Obj, p.Path)
+		}
+		appendBytes(tArr, p.Off, p.Len)
+		return &TupleV{E: []Value{p.Len, nilErr()}}, true
+	case "WriteString":
+		sv2 := args[1].(*StrV)
+		appendBytes(x.strArr(sv2), b.Const(64, 0), sv2.Len)
+		return &TupleV{E: []Value{sv2.Len, nilErr()}}, true
+	case "WriteByte":
+		c := args[1].(*Term)
+		one := b.Store(b.ConstArr(Arr(BV(64), BV(8)), b.Const(8, 0)), b.Const(64, 0), c)
+		appendBytes(one, b.Const(64, 0), b.Const(64, 1))
+		return nilErr(), true
+	case "Grow":
+		x.oblige("negative-grow", pc, b.Not(b.Cmp("bvslt", args[1].(*Term), b.Const(64, 0))))
+		return nil, true
+	case "Len":
+		return b.Bin("bvsub", cur.Len, off), true
+	case "Bytes":
+		if cur.Obj == nil {
+			return cur, true
+		}
+		return &SliceV{Obj: cur.Obj, Path: cur.Path, Off: b.Bin("bvadd", cur.Off, off), Len: b.Bin("bvsub", cur.Len, off), Cap: b.Bin("bvsub", cur.Cap, off)}, true
+	case "Reset":
+		put(&SliceV{Obj: cur.Obj, Path: cur.Path, Off: cur.Off, Len: b.Const(64, 0), Cap: cur.Cap}, b.Const(64, 0))
+		return nil, true
+	}
+	return nil, false
+}
+
 type mapLen struct{ n, pres *Term }
 
 // ------------------------------------------------------------ builtins
@@ -836,6 +914,11 @@ func (x *Exec) stub(callee *ssa.Function, args []Value, st *State, pc *Term) (Va
 		rv, rst := x.run(callee, args, &State{h: st.h, facts: st.facts}, pc)
 		st.h = rst.h
 		return rv, true
+	}
+	if strings.HasPrefix(fn, "bytes.(*Buffer).") {
+		if v, ok := x.bytesBuffer(strings.TrimPrefix(fn, "bytes.(*Buffer)."), callee, args, st, pc); ok {
+			return v, true
+		}
 	}
 	switch fn {
 	case "math/bits.OnesCount8", "math/bits.OnesCount16":
